@@ -218,110 +218,148 @@ def _ladder(stmts, pytype):
 
 
 def r3(repo, run):
+    """type deduction evaluated through the metaclass call itself (finite-domain evaluator, one typed value per
+    Python type PyYAML can produce): which node class is instantiated for cls=ConfigNode"""
+    from ..fde import TypedOpaque, FDE
     mc = repo.func('ConfigNodeMeta.__call__')
-    ladder = None
-    for s in ast.walk(mc.node):
-        if isinstance(s, ast.If) and 'cabc.Sequence' in norm(s.test) and any(isinstance(b, (ast.If, ast.Assign)) for b in s.body):
-            ladder = s
-            break
-    if ladder is None:
-        raise AnalysisError('type deduction ladder not found in ConfigNodeMeta.__call__')
     expect = {dict: 'ConfigDict', list: 'ConfigList', tuple: 'ConfigTuple'}
     bad = []
     for t in PYYAML_TYPES:
-        got = _ladder([ladder], t)
+        f = FDE(repo)
+        f.externals = dict(ABC)
+        r = fde_guard(lambda: f.call(mc, ('class', 'ConfigNode'), TypedOpaque(t)))
+        inst = [e for e in r.effects if e[0] == 'instantiate']
+        got = inst[0][1] if len(inst) == 1 else ('%d instantiations' % len(inst))
+        forced = len(inst) == 1 and dict(inst[0][3]).get('_force_type') is True
         want = expect.get(t, 'ConfigScalar')
         if got != want:
             bad.append((t.__name__, got, want))
+        elif not forced:
+            bad.append((t.__name__, got + ' without _force_type=True', want))
     run.table('C01.R3', len(PYYAML_TYPES), 'deduced node class per Python type PyYAML produces')
     if bad:
-        run.violation('C01.R3', mc, 'type deduction ladder', 'a %s value is wrapped as %s (expected %s)' % bad[0], node=ladder, witness=bad)
+        run.violation('C01.R3', mc, 'type deduction', 'a %s value is wrapped as %s (expected %s)' % bad[0], witness=bad)
     else:
-        run.ok('C01.R3', (mc.file, ladder.lineno, mc.qualname), 'type deduction table (%d types)' % len(PYYAML_TYPES), 'dict/list/tuple -> containers, everything else (str, bytes, numbers, None, dates, sets) -> ConfigScalar')
+        run.ok('C01.R3', mc, 'type deduction table (%d types)' % len(PYYAML_TYPES), 'dict/list/tuple -> containers, everything else (str, bytes, numbers, None, dates, sets) -> ConfigScalar')
 
 
 def r4(repo, run):
+    from ..fde import FDE, Obj, Opaque
     meta = repo.cls('ConfigScalarMeta')
     tbl = meta.attrs.get('_allowed_scalar_types')
     if not isinstance(tbl, ast.Dict):
         raise AnalysisError('_allowed_scalar_types is not a dict display')
-    pairs = [(norm(k), norm(v)) for k, v in zip(tbl.keys, tbl.values)]
-    non_id = [v for k, v in pairs if k != v]
-    want = {'bool': 'configbool', 'type(None)': 'ConfigNone'}
+    pairs = dict((norm(k), norm(v)) for k, v in zip(tbl.keys, tbl.values))
+    want = {'bool': 'configbool', 'type(None)': 'ConfigNone', 'int': 'int', 'float': 'float', 'str': 'str'}
     for k, w in want.items():
-        if dict(pairs).get(k) != w:
-            run.violation('C01.R4', ('awesomeyaml/nodes/scalar.py', tbl.lineno, 'ConfigScalarMeta'), '_allowed_scalar_types[%s]' % k, '%s scalars are stored as %s (expected wrapper %s)' % (k, dict(pairs).get(k), w))
-    for k in ('int', 'float', 'str'):
-        if dict(pairs).get(k) != k:
-            run.violation('C01.R4', ('awesomeyaml/nodes/scalar.py', tbl.lineno, 'ConfigScalarMeta'), '_allowed_scalar_types[%s]' % k, '%s scalars are stored as %s' % (k, dict(pairs).get(k)))
-    for q in ('ConfigScalar._get_value', 'ConfigScalar._get_native_value'):
-        fi = repo.func(q)
-        special = None
-        for s in fi.node.body:
-            if isinstance(s, ast.If) and isinstance(s.test, ast.Compare) and norm(s.test.left) == 'self._dyn_base' and isinstance(s.test.ops[0], ast.In):
-                special = s
-        listed = [norm(e) for e in special.test.comparators[0].elts] if special is not None and isinstance(special.test.comparators[0], (ast.List, ast.Tuple, ast.Set)) else []
-        missing = [v for v in non_id if v not in listed]
-        if missing:
-            run.violation('C01.R4', fi, '%s special cases %s' % (fi.name, listed), 'wrapper type(s) %s leak out of %s: the evaluated config would contain %s instead of the native value' % (missing, fi.name, missing))
-        else:
-            ret = norm(special.body[-1])
-            if fi.name == '_get_value' and ret != 'return self._dyn_base.get(self)' or fi.name == '_get_native_value' and ret not in ('return self._get_value()', 'return self._dyn_base.get(self)'):
-                run.violation('C01.R4', fi, ret, 'wrapper scalars are not unwrapped through get()')
+        if pairs.get(k) != w:
+            run.violation('C01.R4', ('awesomeyaml/nodes/scalar.py', tbl.lineno, 'ConfigScalarMeta'), '_allowed_scalar_types[%s]' % k, '%s scalars are stored as %s (expected %s)' % (k, pairs.get(k), w))
+    # evaluate the value getters for every storage type
+    bad = []
+    rows = 0
+    for base in ('int', 'float', 'str', 'configbool', 'ConfigNone'):
+        for q in ('ConfigScalar._get_value', 'ConfigScalar._get_native_value', 'ConfigScalar.ayns.on_evaluate_impl'):
+            fi = repo.func(q)
+            me = Obj('self', 'ConfigScalar', _dyn_base=('class', base))
+            f = FDE(repo)
+            args = [me] if not q.endswith('on_evaluate_impl') else [me, 'path', Opaque('ctx')]
+            r = fde_guard(lambda: f.call(fi, *args))
+            rows += 1
+            got = r.ret
+            desc = getattr(got, 'name', repr(got)) if got is not me else 'self'
+            if base == 'configbool':
+                ok = desc == 'bool(self)'
+                exp = 'bool(self)'
+            elif base == 'ConfigNone':
+                ok = got is None
+                exp = 'None'
+            elif q.endswith('_get_value'):
+                ok = got is me
+                exp = 'self'
             else:
-                run.ok('C01.R4', fi, '%s unwraps %s through get()' % (fi.name, listed))
-    nv = repo.func('ConfigScalar._get_native_value')
-    last = norm(nv.node.body[-1])
-    if last != 'return self._dyn_base(self)':
-        run.violation('C01.R4', nv, last, 'plain scalars are not converted with their exact dynamic base type (_dyn_base(self)): the evaluated value may have another type or be a shared/cached object', node=nv.node.body[-1])
+                ok = desc == '%s(self)' % base
+                exp = '%s(self)' % base
+            if not ok:
+                bad.append((q, base, desc, exp))
+    run.table('C01.R4', rows, 'value getters over the five scalar storage types')
+    if bad:
+        q, base, desc, exp = bad[0]
+        run.violation('C01.R4', repo.func(q), '%s for %s scalars' % (q.split('.')[-1], base), 'yields %s (expected %s): the evaluated config would hold a wrapper / a value of another type or a shared object instead of the native value' % (desc, exp), witness=bad)
     else:
-        run.ok('C01.R4', nv, 'plain scalars evaluate to _dyn_base(self)')
-    ev = repo.func('ConfigScalar.ayns.on_evaluate_impl')
-    if [norm(s) for s in ev.node.body] != ['return self._get_native_value()']:
-        run.violation('C01.R4', ev, norm(ev.node.body[-1]), 'scalar evaluation does not return the native value')
-    else:
-        run.ok('C01.R4', ev, 'scalar on_evaluate_impl returns _get_native_value()')
-    for w in ('configbool', 'ConfigNone'):
-        if repo.resolve(w, 'get') is None:
-            run.violation('C01.R4', ('awesomeyaml/nodes/scalar.py', 0, w), '%s.get' % w, 'wrapper has no get()')
+        run.ok('C01.R4', repo.func('ConfigScalar._get_native_value'), 'scalar value table (%d rows)' % rows, 'bool -> bool(self), null -> None, int/float/str -> exact base type of the node; evaluation returns the native value')
     gb = repo.resolve('configbool', 'get')
     gn = repo.resolve('ConfigNone', 'get')
-    if gb is not None and norm(gb.node.body[-1]) != 'return bool(self)' or gn is not None and norm(gn.node.body[-1]) != 'return None':
-        run.violation('C01.R4', gb, 'wrapper get()', 'configbool.get / ConfigNone.get do not return bool(self) / None')
+    if gb is None or gn is None:
+        run.violation('C01.R4', ('awesomeyaml/nodes/scalar.py', 0, 'configbool'), 'wrapper get()', 'configbool / ConfigNone have no get()')
+    # R4b: the value getters are pure (a process-wide memo of native values conflates equal values of different types)
+    from .. import shared
+    fns = [repo.func(q) for q in ('ConfigScalar._get_value', 'ConfigScalar._get_native_value', 'ConfigScalar.ayns.on_evaluate_impl')]
+    extra = []
+    for f_ in fns:
+        for c in calls_in(f_.node):
+            for t in repo.resolve_call(c, f_):
+                if t not in fns and t not in extra and t.module is f_.module:
+                    extra.append(t)
+    ws = shared.shared_writes(repo, fns + extra)
+    if ws:
+        w = ws[0]
+        run.violation('C01.R4b', w.fi, w.text(), 'scalar evaluation writes to process-shared state (%s %s): evaluated values are no longer a function of the node alone (e.g. an interning table makes 1.0 evaluate to an earlier int 1)' % w.root, node=w.node)
     else:
-        run.ok('C01.R4', gb, 'configbool.get -> bool(self); ConfigNone.get -> None')
+        run.ok('C01.R4b', fns[1], 'scalar value getters write no process-shared state')
 
 
 def plain_container_eval(repo, run, rule):
-    for q, wrap, elem in (('ConfigDict.ayns.on_evaluate_impl', 'Bunch', '(ctx.evaluate_node(key), ctx.evaluate_node(value, path + [key]))'),
-                          ('ConfigList.ayns.on_evaluate_impl', 'list', 'ctx.evaluate_node(value, path + [key])')):
+    from . import tr
+    for q, wrap, with_key in (('ConfigDict.ayns.on_evaluate_impl', 'Bunch', True), ('ConfigList.ayns.on_evaluate_impl', 'list', False)):
         fi = repo.func(q)
-        body = [s for s in fi.node.body if not (isinstance(s, ast.Expr) and isinstance(s.value, ast.Constant))]
-        if len(body) != 1 or not isinstance(body[0], ast.Return) or not isinstance(body[0].value, ast.Call):
-            raise AnalysisError('%s: single `return %s(<comprehension>)` not recognised' % (q, wrap))
-        call = body[0].value
-        comp = call.args[0] if call.args else None
+        pth, ctx = fi.params()[1], fi.params()[2]
+        paths = [p for p in tr.paths_of(repo, fi) if p.status == 'return']
+        if not paths:
+            raise AnalysisError('%s: no returning path' % q)
+        it = 'each(self.ayns.named_children())'
+        want = {'%s.evaluate_node(%s[1], %s + [%s[0]])' % (ctx, it, pth, it)}
+        if with_key:
+            want.add('%s.evaluate_node(%s[0])' % (ctx, it))
         probs = []
-        if norm(call.func) != wrap:
-            probs.append('result built with %s instead of %s' % (norm(call.func), wrap))
-        if not isinstance(comp, (ast.GeneratorExp, ast.ListComp)) or len(comp.generators) != 1:
-            raise AnalysisError('%s: comprehension not recognised' % q)
-        gen = comp.generators[0]
-        if gen.ifs:
-            probs.append('children are filtered (%s)' % norm(gen.ifs[0]))
-        if norm(gen.iter) != 'self.ayns.named_children()':
-            probs.append('iterates %s instead of every child in child-map order' % norm(gen.iter))
-        if norm(comp.elt) != elem:
-            probs.append('element is %s (expected %s)' % (norm(comp.elt), elem))
+        for p in paths:
+            evs = [e for e in p.events if tr.is_call(e, attr=('evaluate_node', 'evaluate', 'on_evaluate', 'on_evaluate_impl'))]
+            got = {norm(_call_text(e)) for e in evs if e.in_loop}
+            outside = [e for e in evs if not e.in_loop]
+            iters = {e.callee for e in p.events if e.kind == 'call' and e.attr in ('named_children', 'children', 'items', 'values', 'keys', 'sorted', 'reversed', 'enumerate') or (e.kind == 'call' and e.callee in ('sorted', 'reversed', 'enumerate', 'zip'))}
+            filt = [t for t, pol in p.facts if t.startswith('comprehension-filter') or 'each(' in t]
+            if got != want:
+                extra, missing = sorted(got - want), sorted(want - got)
+                probs.append('children are evaluated as %s (missing %s, unexpected %s)' % (sorted(got), missing, extra))
+            if filt:
+                probs.append('children are filtered / skipped conditionally (%s)' % filt[0][:80])
+            if iters - {'self.ayns.named_children'}:
+                probs.append('iteration is not plain self.ayns.named_children() (%s)' % sorted(iters))
+            if outside:
+                probs.append('evaluation outside the child loop: %s' % norm(outside[0].node)[:60])
+            fe = tr.final_event(p)
+            rt = fe.value.text if fe is not None and fe.value is not None else ''
+            if not (rt.startswith(wrap + '(') or (wrap == 'list' and rt.startswith('['))):
+                probs.append('result is %s..., not %s(...)' % (rt[:40], wrap))
         if probs:
-            run.violation(rule, fi, norm(body[0]), '; '.join(probs), node=body[0])
+            run.violation(rule, fi, norm(fi.node.body[-1])[:200], '; '.join(sorted(set(probs))[:3]), node=fi.node.body[-1])
         else:
-            run.ok(rule, fi, norm(body[0])[:140], 'each child evaluated once, in order, through ctx.evaluate_node')
+            run.ok(rule, fi, '%s(<evaluate_node of %s of every named child>)' % (wrap, 'key and value' if with_key else 'the value'), 'each child evaluated once, in child-map order, through ctx.evaluate_node; no filter')
     nc = repo.func('ComposedNode.ayns.named_children')
     loops = [s for s in walk_no_nested(nc.node) if isinstance(s, ast.For)]
     if len(loops) != 1 or norm(loops[0].iter) != 'self._children.items()':
         raise AnalysisError('named_children shape not recognised')
-    run.ok(rule, nc, 'named_children yields self._children.items() in order (duplicates allowed by default)')
+    a = nc.node.args
+    names = [x.arg for x in a.args]
+    dv = dict(zip(names[len(names) - len(a.defaults):], a.defaults))
+    if 'allow_duplicates' in dv and not (isinstance(dv['allow_duplicates'], ast.Constant) and dv['allow_duplicates'].value is True):
+        run.violation(rule, nc, 'named_children(allow_duplicates=%s)' % norm(dv['allow_duplicates']), 'children that are the same node object as an earlier sibling are skipped by default: containers lose entries when a node is shared (e.g. several implicit nulls below a tagged mapping)')
+    else:
+        run.ok(rule, nc, 'named_children yields self._children.items() in order (duplicates allowed by default)')
+
+
+def _call_text(e):
+    import copy as _c
+    return e.result.ast if e.result is not None else e.node
 
 
 def _inline_locals(fi, e, loop):
@@ -414,7 +452,8 @@ def mutants(repo):
         Mutant('str-treated-as-sequence', lambda r: in_func(r, 'ConfigNodeMeta.__call__', "if isinstance(value, cabc.Sequence) and not isinstance(value, str) and not isinstance(value, bytes):", "if isinstance(value, cabc.Sequence) and not isinstance(value, bytes):"), ['C01.R3']),
         Mutant('mapping-before-sequence-lost', lambda r: in_func(r, 'ConfigNodeMeta.__call__', "elif isinstance(value, cabc.MutableMapping):", "elif isinstance(value, cabc.MutableSet):"), ['C01.R3']),
         Mutant('configbool-leaks', lambda r: in_func(r, 'ConfigScalar._get_value', "if self._dyn_base in [configbool, ConfigNone]:", "if self._dyn_base in [ConfigNone]:"), ['C01.R4']),
-        Mutant('native-value-interned', lambda r: in_func(r, 'ConfigScalar._get_native_value', "return self._dyn_base(self)", "return _native_values.setdefault(self._dyn_base(self), self._dyn_base(self))"), ['C01.R4']),
+        Mutant('native-value-interned', lambda r: in_func(r, 'ConfigScalar._get_native_value', "return self._dyn_base(self)", "return _native_values.setdefault(self._dyn_base(self), self._dyn_base(self))")['awesomeyaml/nodes/scalar.py'].replace("class configbool(int):", "_native_values = {}\n\n\nclass configbool(int):", 1) and
+               {'awesomeyaml/nodes/scalar.py': in_func(r, 'ConfigScalar._get_native_value', "return self._dyn_base(self)", "return _native_values.setdefault(self._dyn_base(self), self._dyn_base(self))")['awesomeyaml/nodes/scalar.py'].replace("class configbool(int):", "_native_values = {}\n\n\nclass configbool(int):", 1)}, ['C01.R4b']),
         Mutant('dict-eval-skips-underscore', lambda r: in_func(r, 'ConfigDict.ayns.on_evaluate_impl', "for key, value in self.ayns.named_children())", "for key, value in self.ayns.named_children() if not str(key).startswith('_'))"), ['C01.R5']),
         Mutant('list-eval-sorted', lambda r: in_func(r, 'ConfigList.ayns.on_evaluate_impl', "in self.ayns.named_children())", "in sorted(self.ayns.named_children()))"), ['C01.R5']),
         Mutant('F7-reverted', lambda r: in_func(r, 'ConfigDict.__setitem__', "        return self._set(name, value)", "        if isinstance(name, str) and name.startswith('_'):\n            return dict.__setitem__(self, name, value)\n        return self._set(name, value)"), ['C01.R6']),
